@@ -8,4 +8,5 @@ Extraction "c09_model" force_types
   byte_index byte_index_unrepaired index_in_range
   avl_step ht_step trie_step run
   avl_step_cb ht_step_cb trie_step_cb runf ht_clear_cb ht_count
+  avl_step_o ht_step_o trie_step_o avl_size trie_nodes
   havl_init havl_step habs hparents_ok hht_init hht_step hht_bucket.
